@@ -53,7 +53,11 @@ SPEC = dict(
     cov_files=['complex.c'], cov_cases=240, cov_timeout=300,
     timeout={'quick': 1200, 'thorough': 10800},
     assumptions=_COMMON + ['oracle = libquadmath (113-bit) evaluated at the exactly converted float/double argument',
-                           'signed-zero conventions ON the cuts and values at poles are not judged; long double builds are not covered',
+                           'signed-zero conventions ON the cuts and values at poles are not judged (the real-argument variants on their cuts are judged by component magnitudes only); long double builds are not covered',
+                           'argument moduli span the normal range of the type (1e-307..1.6e308, float 3e-38..3e38), results are judged up to the largest finite value; subnormal arguments are not drawn, and '
+                           'arguments whose modulus is itself not representable (both components within a factor sqrt 2 of MAX) only for the arithmetic group and for pow / pow_real: the inverse trigonometric / hyperbolic '
+                           'fallbacks were observed to overflow there (hypot(x +- 1, y)), which is recorded as a limit, not judged',
+                           'exponential-family functions get one sample in ten with a component within (-2, +0.4) of ln(MAX); small lattice points (0, +-1, +-2, +-1/2, +-3 in both components) one sample in 24',
                            'K = 16 / 64 are calibrated head-room constants (worst observed ratios are reported per function under worst_observed)'],
     level_text='Differential testing of every complex operation against a 113-bit oracle with a conditioning-aware norm-wise bound, repeated in every build '
                'configuration of the A_HAVE_* switches and both real widths, so that both the libm-backed and the fallback body of each function are executed. '
